@@ -204,6 +204,7 @@ type recEnd struct {
 	raw   net.Conn
 	state func() tls.VerifRecState
 	ku    func(bool) error
+	tc    *tls.Conn // the connection itself (client: the Conn embedded in the UConn), for raw records
 	mu    sync.Mutex
 	chunk [][]byte // every Write call on the underlying conn since the last take()
 }
@@ -356,6 +357,7 @@ func newRecPair(o recOpts) (*recPair, error) {
 	ce.rw, se.rw = u, srv
 	ce.state, se.state = u.VerifRecState, srv.VerifRecState
 	ce.ku, se.ku = u.VerifSendKeyUpdate, srv.VerifSendKeyUpdate
+	ce.tc, se.tc = u.Conn, srv
 	ce.take()
 	se.take()
 	return &recPair{c: ce, s: se, u: u, srv: srv}, nil
@@ -585,6 +587,49 @@ func recGenSched(r *Rng, i int, tier string) string {
 		ops = append(ops, fmt.Sprintf("w%s:%d", side, 1+r.Intn(3000)), fmt.Sprintf("r%s:70000", other), fmt.Sprintf("r%s:70000", other),
 			fmt.Sprintf("w%s:%d", other, 1+r.Intn(300)), fmt.Sprintf("r%s:70000", side))
 	}
+	// ignorable records interleaved with data: groups of (j empty application-data records or, up to
+	// TLS 1.2, warning alerts; then a non-empty write of the same side), j mostly 1..3, sometimes
+	// 31/32 (the limit for one run is maxUselessRecords = 32); 33..110 ignorable records in total
+	if r.Intn(5) == 0 {
+		side := Pick(r, []string{"c", "s"})
+		other := map[string]string{"c": "s", "s": "c"}[side]
+		total := Pick(r, []int{33, 34, 40, 64, 100, 110})
+		for done := 0; done < total; {
+			j := 1 + r.Intn(3)
+			if r.Intn(8) == 0 {
+				j = Pick(r, []int{31, 32})
+			}
+			for i := 0; i < j; i++ {
+				kind := "z"
+				if c.Vers != tls.VersionTLS13 && r.Intn(2) == 0 {
+					kind = "a"
+				}
+				ops = append(ops, fmt.Sprintf("%s%s:0", kind, side))
+			}
+			done += j
+			ops = append(ops, fmt.Sprintf("w%s:%d", side, 1+r.Intn(300)))
+			if r.Intn(3) == 0 {
+				ops = append(ops, fmt.Sprintf("r%s:%d", other, Pick(r, []int{1, 100, 70000})))
+			}
+		}
+		ops = append(ops, fmt.Sprintf("r%s:70000", other), fmt.Sprintf("r%s:70000", other))
+	}
+	// TLS 1.3: several post-handshake messages in ONE record (the in-package peers never do that):
+	// KeyUpdates with/without update_requested, and (server -> client) NewSessionTickets; then data
+	if c.Vers == tls.VersionTLS13 && r.Intn(3) == 0 {
+		for g, ng := 0, 1+r.Intn(3); g < ng; g++ {
+			side := Pick(r, []string{"s", "s", "c"})
+			other := map[string]string{"c": "s", "s": "c"}[side]
+			var code int
+			if side == "s" {
+				code = Pick(r, []int{11, 31, 13, 33, 313, 331, 12, 32, 111, 3331})
+			} else {
+				code = Pick(r, []int{11, 12, 21, 111, 22})
+			}
+			ops = append(ops, fmt.Sprintf("m%s:%d", side, code), fmt.Sprintf("w%s:%d", side, 1+r.Intn(3000)),
+				fmt.Sprintf("r%s:70000", other), fmt.Sprintf("r%s:70000", other))
+		}
+	}
 	// long streams cross the 128 KiB boost threshold and the 16 384 cap of the progression
 	if r.Intn(10) == 0 {
 		side := Pick(r, []string{"c", "s"})
@@ -602,6 +647,9 @@ func recGenSched(r *Rng, i int, tier string) string {
 }
 
 const recMaxPending = 200000
+
+// a minimal well-formed TLS 1.3 NewSessionTicket: lifetime 0, age_add 0, nonce {0}, ticket {1,2,3,4}, no extensions
+var recTicketMsg = []byte{4, 0, 0, 18, 0, 0, 0, 0, 0, 0, 0, 0, 1, 0, 0, 4, 1, 2, 3, 4, 0, 0}
 
 // recPrime exchanges one byte in each direction, so that a TLS 1.3 NewSessionTicket in flight is
 // consumed and both directions start synchronised. Returns "" or a failure description.
@@ -682,12 +730,48 @@ func recExecSched(in KV) string {
 			e := p.end(side)
 			err := e.ku(n == 1)
 			res = append(res, fmt.Sprintf("k%c/%s/%s", side, recErrClass(err), chunkLens(e.take())))
+		case 'z', 'a', 'm':
+			// hand-built records under the current write keys: empty application data, a warning alert
+			// (TLS <= 1.2), several post-handshake messages coalesced into one record (TLS 1.3; digits of
+			// n: 1 = KeyUpdate, 2 = KeyUpdate with update_requested, 3 = NewSessionTicket)
+			e, pe := p.end(side), p.peer(side)
+			if len(sent[side])-rcvd[pe.name] > recMaxPending-4000 {
+				res = append(res, "x")
+				break
+			}
+			var err error
+			switch op[0] {
+			case 'z':
+				err = e.tc.VerifWriteRawRecord(23, nil)
+			case 'a':
+				err = e.tc.VerifWriteRawRecord(21, []byte{1, 90})
+			case 'm':
+				var payload []byte
+				nku := 0
+				for _, d := range fmt.Sprint(n) {
+					switch d {
+					case '1':
+						payload = append(payload, 24, 0, 0, 1, 0)
+						nku++
+					case '2':
+						payload = append(payload, 24, 0, 0, 1, 1)
+						nku++
+					case '3':
+						payload = append(payload, recTicketMsg...)
+					}
+				}
+				err = e.tc.VerifWriteRawRecord(22, payload)
+				if err == nil {
+					e.tc.VerifRekeyOut(nku)
+				}
+			}
+			res = append(res, fmt.Sprintf("%c%c/%s/%s", op[0], side, recErrClass(err), chunkLens(e.take())))
 		}
 	}
 	// drain both directions, then flush trailing KeyUpdates with two rounds of one-byte exchanges
 	var drain []string
 	for _, side := range []byte{'c', 's'} {
-		for i := 0; i < 64 && len(sent[p.peer(side).name])-rcvd[side] > 0; i++ {
+		for i := 0; i < 1000 && len(sent[p.peer(side).name])-rcvd[side] > 0; i++ {
 			drain = append(drain, doRead(side, 70000))
 		}
 	}
